@@ -205,3 +205,14 @@ def select(feats=None, ids=None, exclude=()):
             continue
         out.append(t)
     return out
+
+
+# ---- generated family (leaf variant x structural position): corpus/gen.py ------------------------
+from corpus.gen import GENERATED  # noqa: E402
+for _t in GENERATED:
+    BY_ID[_t['id']] = _t
+
+
+def generated(quick=False, exclude=()):
+    """templates of the generated family; quick: the curated 'genq' subset"""
+    return [t for t in GENERATED if ('genq' in t['feats'] or not quick) and not (t['feats'] & set(exclude))]
